@@ -511,6 +511,10 @@ def _drops_nonnegative(H):
         if a.d["op"] == "=" and a.kids[0].strip().k == "DeclRefExpr" and any(x.k == "CallExpr" and x.callee in ("atof", "strtod", "strtof") for x in a.kids[1].walk()):
             parsed = a.kids[0].strip().d["did"]
     rets = list(H.body.find("ReturnStmt"))
+    if parsed is None and rets and all(r.kids and r.kids[0].strip(casts=True).k == "CallExpr" and
+                                       r.kids[0].strip(casts=True).callee in ("atof", "strtod", "strtof") for r in rets) and \
+            not any(x.k in ("IfStmt", "SwitchStmt", "ConditionalOperator") for x in H.body.walk()):
+        return None            # return (float) strtod(arg, NULL);  - the parsed number itself, unconditionally
     if parsed is None or not rets:
         raise AnalysisBroken("R09d: the parsing helper %s is not understood (no local holds the parsed number)" % H.name)
     for probe in (0.0, 1.0):
